@@ -35,6 +35,7 @@ func runC07(x *Ctx) {
 	x.C.Rule("C07.R4", "constructors bound every serialised timestamp like the decoder", 9)
 	x.C.Rule("C07.R5", "construct-side counterparts of decode-side validators", 5)
 	x.C.Rule("C07.R6", "generic decoder = typed decoders", 1)
+	x.C.Rule("C07.R7", "encoders return the codec's fresh output", 3)
 
 	for _, pk := range []string{"token/delegation", "token/invocation"} {
 		fieldBijection(x, pk)
@@ -61,6 +62,8 @@ func runC07(x *Ctx) {
 
 	timestampBounds(x)
 	validatorSymmetry(x)
+	decodeOnlyValidators(x)
+	freshEncoderOutput(x)
 
 	// R6
 	if f := x.fn("C07.R6", "token.fromIPLD"); f != nil {
@@ -364,5 +367,106 @@ func validatorSymmetry(x *Ctx) {
 			}
 		}
 		x.C.Obl("C07.R5", "args-validate-all", x.pos(f), "Args.Validate fails on the first value whose integers are out of bounds (range over all values)", ok, "")
+	}
+}
+
+// decodeSideCounterpart: validators of tokenFromModel whose construct-side counterpart is not "the
+// same function called by validate()" but another, separately checked, mechanism.
+var decodeSideCounterpart = map[string]string{
+	"did.Parse":                               "did.DID values can only be produced by did.Parse / did.FromPubKey / did.Undef (C16); validate() checks Defined()",
+	"token/internal/parse.OptionalDID":        "as did.Parse",
+	"pkg/policy.FromIPLD":                     "validate() encodes the policy and applies ValidateIntegerBoundsIPLD (C07.R5 policy-integers); statements can only be built by the package's constructors / decoder",
+	"token/internal/parse.OptionalTimestamp":  "validate() bounds every serialised timestamp (C07.R4)",
+}
+
+// decodeOnlyValidators: every in-module call whose failure makes tokenFromModel fail is either one
+// of the table above or is also a must-succeed call of validate() (the constructor side): a check
+// that exists only on the decode side makes tokens that can be sealed but not read back.
+func decodeOnlyValidators(x *Ctx) {
+	for _, pk := range []string{"token/delegation", "token/invocation"} {
+		dec := x.fn("C07.R5", pk+".tokenFromModel")
+		val := x.fn("C07.R5", "(*"+pk+".Token).validate")
+		if dec == nil || val == nil {
+			continue
+		}
+		sel, _, err := x.E.Select(dec, paths.WantSuccess)
+		if err != nil || len(sel) == 0 {
+			continue
+		}
+		// must-succeed in-module calls of the decoder
+		guards := map[string]bool{}
+		for i, v := range sel {
+			here := map[string]bool{}
+			for _, f := range v.AllFacts() {
+				if xx := paths.NilCheckOf(f.Atom); xx != nil && f.Pol {
+					if ct, call := paths.CallOf(xx); ct != nil && call != nil && ct.Op == "call" {
+						if g := paths.StaticCallee(call); g != nil && x.P.InModule(g) {
+							here[ct.Name] = true
+						}
+					}
+				}
+			}
+			if i == 0 {
+				guards = here
+			} else {
+				for k := range guards {
+					if !here[k] {
+						delete(guards, k)
+					}
+				}
+			}
+		}
+		// must-succeed in-module calls of validate (transitively through its closures: names only)
+		vsel, _, _ := x.E.Select(val, paths.WantSuccess)
+		vguards := map[string]bool{}
+		for _, v := range vsel {
+			for _, f := range v.AllFacts() {
+				if xx := paths.NilCheckOf(f.Atom); xx != nil && f.Pol {
+					if ct, _ := paths.CallOf(xx); ct != nil {
+						vguards[ct.Name] = true
+					}
+				}
+			}
+		}
+		bad := ""
+		var names []string
+		for g := range guards {
+			names = append(names, g)
+		}
+		sort.Strings(names)
+		for _, g := range names {
+			if g == "(*"+pk+".Token).validate" {
+				continue
+			}
+			if _, ok := decodeSideCounterpart[g]; ok {
+				continue
+			}
+			if !vguards[g] {
+				bad += "tokenFromModel fails unless " + g + " succeeds, but the constructor's validate() does not call it: a token can be constructed and sealed that every decoder rejects\n"
+			}
+		}
+		x.C.Obl("C07.R5", "decode-only-validators:"+pk, x.pos(dec), fmt.Sprintf("every validator of tokenFromModel %v has a construct-side counterpart", names), bad == "", bad)
+	}
+}
+
+// freshEncoderOutput: Encode returns exactly what the codec returned (no pooled / shared buffer).
+func freshEncoderOutput(x *Ctx) {
+	for _, name := range []string{"(*token/delegation.Token).Encode", "(*token/invocation.Token).Encode", "token/internal/envelope.Encode"} {
+		f := x.fn("C07.R7", name)
+		if f == nil {
+			continue
+		}
+		sel, _, _ := x.E.Select(f, paths.WantSuccess)
+		ok := len(sel) > 0
+		detail := ""
+		for _, v := range sel {
+			r := v.Results()[0]
+			ct, _ := paths.CallOf(r)
+			if ct == nil || ct.Name != "github.com/ipld/go-ipld-prime.Encode" || !strings.HasSuffix(r.String(), "#0") {
+				ok = false
+				detail += "returns " + r.String() + "\n"
+			}
+		}
+		x.C.Obl("C07.R7", "fresh-output:"+name, x.pos(f), "Encode returns the byte slice produced by ipld.Encode for this call (not a view of a reused buffer)", ok, detail)
 	}
 }
